@@ -7,7 +7,7 @@ G = None
 def register(progs, g):
     global G
     G = g
-    progs.update({'C17': prog_C17, 'C03': prog_C03, 'C16': prog_C16, 'C01': prog_C01, 'C02': prog_C02, 'C08': prog_C08, 'C09': prog_C09, 'C10': prog_C10, 'C15': prog_C15, 'C18': prog_C18, 'C07': prog_C07, 'C11': prog_C11, 'C13': prog_C13, 'C14': prog_C14})
+    progs.update({'C17': prog_C17, 'C03': prog_C03, 'C16': prog_C16, 'C01': prog_C01, 'C02': prog_C02, 'C08': prog_C08, 'C09': prog_C09, 'C10': prog_C10, 'C15': prog_C15, 'C18': prog_C18, 'C07': prog_C07, 'C11': prog_C11, 'C13': prog_C13, 'C14': prog_C14, 'C12': prog_C12})
 
 
 def plain_diff(ops_path, a_path, b_path, limit=40):
@@ -308,3 +308,19 @@ def prog_C14(ctx):
         ctx.cov['distinct_nontrivial'] = ctx.cov.get('distinct_nontrivial', 0) + len(sd.get('OutcomeHist') or {})
         ctx.cov['exhaustive'] = bool(sd.get('Exhaustive'))
         ctx.cov['rule'] += '; scheddiff: three (request, message) pairs: ProcessOperation || poll(new proposal), ApproveParticipation || poll(new invitation), ResetFSMState || poll; per pair all single pre-emptions and a sample of double/triple ones (60 plans quick, 1500 thorough = exhaustive within 3 pre-emptions when the pair has few steps)'
+
+
+AIR_TRUSTED = ['airdiff: real ceremonies; a machine with the mnemonic of a participant is fed the operations of that participant and is stopped (database closed), reopened from its database and rebuilt with ReplayOperationsLog at every restart point: before each operation, after the handler ran but before logging, after logging with the result file lost, and after every single step; every later result (compared up to the encodings that depend on Go map iteration order and ECIES randomness: deals by addressee, responses by verdict) and the final keyring must be those of a machine that never stopped',
+               'bookkeeping tie: the compiled Lean machine model (log / replay / restart) must predict the durable operation log of the real machine after every step (ids read from its LevelDB through a verif hook)',
+               'assumed by the theorems, checked only by airdiff: the handlers (kyber DKG/VSS, ECIES, BLS: not modelled) are deterministic functions of the seed-derived state and the operation, and signing requests do not modify the DKG instance']
+
+
+def air_cov(ctx, st):
+    ctx.cov.update(evaluations=st['Ops'] + st['Mutations'] + st['CloneOps'], distinct_nontrivial=len(st.get('OutcomeHist') or {}) + st['RestartPoints'], exhaustive=False,
+                   restart_points=st['RestartPoints'], restarts=st['Restarts'], clones=st['Clones'], fault_mutations=st['Mutations'], driver_notes=(st.get('Notes') or [])[:10])
+
+
+def prog_C12(ctx):
+    generic(ctx, ['Dc4bcVerif.Props.C12'], 'airdiff', 'air', ['C12'], AIR_TRUSTED,
+            'ceremonies (3,2),(2,2) [thorough: +(4,3),(3,3)]; per ceremony one participant: restart before every operation, and (sampled in quick, all in thorough) kill-before-log and kill-after-log at every operation, plus one run restarting after every step; two clones fed the same operations',
+            cov_from_stats=air_cov)
